@@ -523,3 +523,514 @@ def dnastring_view_ctors(F, rep, rule="C15.4"):
                 pr.append("stored sequences must be returned forward")
             return pr
         run_rows(F, rep, "C14.5", PS + "::get", body, mk_args, check, "PackedDnaStringSet::get(i) = forward view (start[i], length[i])", mk_h=H)
+
+
+# =========================================================================== C18 node k-mer iterator
+
+NKI = "graph::NodeKmerIter"
+
+
+def aff_val(x, env):
+    f = aff_of(x) if isinstance(x, Int) else None
+    if f is None:
+        return None
+    try:
+        return sum(c * env[a] for a, c in f[0].items()) + f[1]
+    except KeyError:
+        return None
+
+
+class NodeIterOracles(SeqOracles):
+    """the node's slice has length N + K - 1"""
+
+    def on_call(self, it, fn, args, dest_ty, term, caller):
+        path = fn.get("path", "")
+        name = path.split("::")[-1]
+        tr = fn.get("trait", "")
+        if tr in ("Mer", "Vmer") and name == "len" and args:
+            x = recv(it, args[0])
+            if isinstance(x, Opaque) and x.info.get("seq") == "node":
+                self.calls.append(("len", "node"))
+                return bv.aff_int(64, {"N": 1, "K": 1}, -1)
+        if tr in ("Mer", "Vmer") and name in ("get", "get_kmer") and args:
+            x = recv(it, args[0])
+            if isinstance(x, Opaque) and x.info.get("seq") == "node":
+                self.reads.append((name, args[1]))
+        return SeqOracles.on_call(self, it, fn, args, dest_ty, term, caller)
+
+
+def node_iter_state(F, c="c", n="N"):
+    return struct_of(F, NKI, {"kmer_id": atom_int(64, c), "kmer": Opaque("K", {"kmer"}, {"kmer": "cur"}), "num_kmers": atom_int(64, n),
+                              "node_seq_slice": seq_v("node", "n")})
+
+
+def node_kmer_iter_tables(F, rep, rule="C18.1"):
+    names = [f["name"] for f in F.adts.get(NKI, {"variants": [{"fields": []}]})["variants"][0]["fields"]]
+    if not {"kmer_id", "kmer", "num_kmers", "node_seq_slice"} <= set(names):
+        rep.violated(rule, "NodeKmerIter/fields", "anchor-missing: NodeKmerIter fields are %s" % names, witness={"kind": "anchor-missing"})
+        return
+    ATOMS = ("c", "N", "m", "K")
+
+    def setup(h):
+        h.reads = []
+        h.assume({"c": 1}, lo=0)
+        h.assume({"N": 1}, lo=0)
+        h.assume({"K": 1}, lo=1)
+        h.assume({"m": 1}, lo=0)
+        h.assume({"c": 1, "N": -1}, hi=0)        # the struct invariant kmer_id <= num_kmers
+
+    def common_checks(h, out, cells, what):
+        """invariant after the call; reads inside the node; returns problems"""
+        pr = []
+        st = cells["self"].v
+        c2, n2 = st.fields[names.index("kmer_id")], st.fields[names.index("num_kmers")]
+        if not aff_eq(n2, {"N": 1}, 0):
+            pr.append("%s changes num_kmers" % what)
+        # invariant c' <= N
+        env = h.find_model(ATOMS, lambda e: (aff_val(c2, e) is not None and aff_val(c2, e) > e["N"]))
+        if aff_of(c2) is None:
+            pr.append(("inc", "%s: the counter is no longer an affine expression (%r)" % (what, c2)))
+        elif env is not None:
+            pr.append("%s can leave the counter past the end: with kmer_id=%d, num_kmers=%d%s the counter becomes %d — later calls never see kmer_id == num_kmers "
+                      "and keep yielding k-mers read beyond the node" % (what, env["c"], env["N"], (", n=%d" % env["m"]) if "m" in str(aff_of(c2)) or True else "", aff_val(c2, env)))
+        # every read lies inside the node: get idx <= N+K-2 ; get_kmer pos <= N-1
+        for (kind, idx) in h.reads:
+            if kind == "get":
+                env = h.find_model(ATOMS, lambda e, idx=idx: aff_val(idx, e) is not None and aff_val(idx, e) > e["N"] + e["K"] - 2)
+                lim = "the node's last base"
+            else:
+                env = h.find_model(ATOMS, lambda e, idx=idx: aff_val(idx, e) is not None and aff_val(idx, e) > e["N"] - 1)
+                lim = "the node's last k-mer"
+            if aff_of(idx) is None:
+                pr.append(("inc", "%s reads at a non-affine index %r" % (what, idx)))
+            elif env is not None:
+                pr.append("%s reads %s at index %s, beyond %s (e.g. kmer_id=%d, num_kmers=%d, K=%d%s): the bases of the neighbouring node, or a panic on the last node" % (
+                    what, "a base" if kind == "get" else "a k-mer", affs(idx), lim, env["c"], env["N"], env["K"], ", n=%d" % env["m"]))
+        return pr
+
+    # ---- next
+    body = anchor(F, rep, rule, "NodeKmerIter::next", "<graph::NodeKmerIter<'a, K, D> as std::iter::Iterator>::next")
+    if body is not None:
+        def mk_args(h):
+            cell = Cell(node_iter_state(F), "self")
+            return [Ref(cell)], {"self": cell}
+
+        def check(h, out, cells):
+            if is_diverge(out):
+                return ["next() diverges: %s" % out[1]]
+            pr = common_checks(h, out, cells, "next()")
+            at_end = h.truth("Eq", {"c": 1, "N": -1}, 0)
+            st = cells["self"].v
+            c2, k2 = st.fields[names.index("kmer_id")], st.fields[names.index("kmer")]
+            if at_end is None:
+                # the end test may be written as >= : accept any test that the invariant makes equivalent
+                at_end = h.truth("Ge", {"c": 1, "N": -1}, 0)
+            if at_end is None:
+                return pr + [("inc", "end test undecided: %s" % h.obs.get("cmp"))]
+            if at_end:
+                if not (isinstance(out, Adt) and out.variant == 0):
+                    pr.append("at the end (kmer_id == num_kmers) next() must return None, it returns %r" % (out,))
+                if not aff_eq(c2, {"c": 1}, 0) and h.find_model(ATOMS, lambda e: aff_val(c2, e) != e["N"]) is not None:
+                    pr.append("next() at the end moves the counter")
+            else:
+                if not (isinstance(out, Adt) and out.variant == 1 and info_of(out.fields[0]).get("kmer") == "cur"):
+                    pr.append("before the end next() must yield the current k-mer, it returns %r" % (out,))
+                if not aff_eq(c2, {"c": 1}, 1):
+                    pr.append("next() advances the counter to %s instead of kmer_id+1" % affs(c2))
+                more = h.truth("Lt", {"c": 1, "N": -1}, -1 + 0) if False else h.decide("Lt", {"c": 1, "N": -1}, 1)
+                if more:
+                    want = "extend_right(cur,base:node:%s)" % aff_str(bv.aff_pack({"c": 1, "K": 1}, 0))
+                    if info_of(k2).get("kmer") != want:
+                        pr.append("the next k-mer is %s; rolling requires %s" % (info_of(k2).get("kmer"), want))
+            return pr
+        run_rows(F, rep, rule, "NodeKmerIter::next", body, mk_args, check,
+                 "NodeKmerIter::next: None exactly at kmer_id == num_kmers, otherwise yields and rolls; the counter never passes the end and no read leaves the node",
+                 mk_h=NodeIterOracles, setup=setup)
+    # ---- nth
+    body = anchor(F, rep, rule, "NodeKmerIter::nth", "<graph::NodeKmerIter<'a, K, D> as std::iter::Iterator>::nth")
+    if body is not None:
+        def mk_args2(h):
+            cell = Cell(node_iter_state(F), "self")
+            return [Ref(cell), atom_int(64, "m")], {"self": cell}
+
+        def check2(h, out, cells):
+            if is_diverge(out):
+                env = h.find_model(ATOMS, lambda e: True)
+                return ["nth(n) diverges (%s)%s" % (out[1], (" e.g. for kmer_id=%d, num_kmers=%d, n=%d" % (env["c"], env["N"], env["m"])) if env else "")]
+            pr = common_checks(h, out, cells, "nth(n)")
+            # result: None iff c + m >= N
+            is_some = isinstance(out, Adt) and out.variant == 1
+            is_none = isinstance(out, Adt) and out.variant == 0
+            if not (is_some or is_none):
+                return pr + [("inc", "nth returns %r" % (out,))]
+            if is_some:
+                env = h.find_model(ATOMS, lambda e: e["c"] + e["m"] >= e["N"])
+                if env is not None:
+                    pr.append("nth(%d) with kmer_id=%d of %d k-mers skips past the last k-mer but returns a k-mer instead of None" % (env["m"], env["c"], env["N"]))
+            else:
+                env = h.find_model(ATOMS, lambda e: e["c"] + e["m"] < e["N"])
+                if env is not None:
+                    pr.append("nth(%d) with kmer_id=%d of %d k-mers returns None although the target k-mer exists" % (env["m"], env["c"], env["N"]))
+            st = cells["self"].v
+            c2 = st.fields[names.index("kmer_id")]
+            if is_some and aff_of(c2) is not None and not aff_eq(c2, {"c": 1, "m": 1}, 1):
+                env = h.find_model(ATOMS, lambda e: aff_val(c2, e) != e["c"] + e["m"] + 1)
+                if env is not None:
+                    pr.append("after nth(n) yields, the counter is %s instead of kmer_id+n+1" % affs(c2))
+            return pr
+        run_rows(F, rep, rule, "NodeKmerIter::nth", body, mk_args2, check2,
+                 "NodeKmerIter::nth(n): returns None exactly when kmer_id + n >= num_kmers, never moves the counter past the end, never reads outside the node",
+                 mk_h=NodeIterOracles, setup=setup)
+    # ---- into_iter / size_hint
+    body = anchor(F, rep, "C18.3", "NodeKmer::into_iter", "<graph::NodeKmer<'a, K, D> as std::iter::IntoIterator>::into_iter")
+    if body is not None:
+        def mk_args3(h):
+            me = struct_of(F, "graph::NodeKmer", {"node_id": atom_int(64, "id"), "node_seq_slice": seq_v("node", "n")})
+            return [me], {}
+
+        def check3(h, out, cells):
+            if is_diverge(out):
+                return ["into_iter diverges: %s" % out[1]]
+            if not (isinstance(out, Adt) and out.name == NKI):
+                return [("inc", "result %r" % (out,))]
+            c, k, N = out.fields[names.index("kmer_id")], out.fields[names.index("kmer")], out.fields[names.index("num_kmers")]
+            pr = []
+            if not (isinstance(c, Int) and c.is_conc() and c.val == 0):
+                pr.append("iteration starts at kmer_id = %s" % affs(c))
+            if not aff_eq(N, {"n": 1, "K": -1}, 1):
+                pr.append("num_kmers is %s; a node of n bases has n-K+1 k-mers" % affs(N))
+            pos = h.truth("Gt", {"n": 1, "K": -1}, 1)
+            if pos and info_of(k).get("kmer") != "at:node:0":
+                pr.append("the first k-mer is %s instead of the k-mer at 0" % info_of(k).get("kmer"))
+            return pr
+
+        class H3(SeqOracles):
+            pass
+        run_rows(F, rep, "C18.3", "NodeKmer::into_iter", body, mk_args3, check3,
+                 "NodeKmer::into_iter: kmer_id = 0, num_kmers = len-K+1, first k-mer at 0", mk_h=H3)
+    body = anchor(F, rep, "C18.3", "NodeKmerIter::size_hint", "<graph::NodeKmerIter<'a, K, D> as std::iter::Iterator>::size_hint")
+    if body is not None:
+        def check4(h, out, cells):
+            ok = isinstance(out, Tup) and aff_eq(out.fields[0], {"N": 1}, 0) and isinstance(out.fields[1], Adt) and out.fields[1].variant == 1 and aff_eq(out.fields[1].fields[0], {"N": 1}, 0)
+            return [] if ok else ["size_hint is %r; up front it must be (num_kmers, Some(num_kmers))" % (out,)]
+        run_rows(F, rep, "C18.3", "NodeKmerIter::size_hint", body, lambda h: ([Ref(Cell(node_iter_state(F), "self"))], {}), check4,
+                 "size_hint reports exactly num_kmers")
+    # ---- node iterators
+    for path, adt in (("<graph::NodeIter<'a, K, D> as std::iter::Iterator>::next", "graph::NodeIter"),
+                      ("<graph::NodeIntoIter<'a, K, D> as std::iter::Iterator>::next", "graph::NodeIntoIter")):
+        body = anchor(F, rep, "C18.4", adt + "::next", path)
+        if body is None:
+            continue
+
+        class H5(SeqOracles):
+            def on_call(self, it, fn, args, dest_ty, term, caller):
+                p = fn.get("path", "")
+                nm = p.split("::")[-1]
+                if p.startswith("graph::DebruijnGraph") and nm == "len":
+                    return atom_int(64, "L")
+                if p.startswith("graph::Node::<") and nm == "sequence":
+                    n = recv(it, args[0])
+                    return Opaque("DnaStringSlice", {"seq"}, {"seq": "node@%s" % affs(n.fields[0]), "len": "n"})
+                return SeqOracles.on_call(self, it, fn, args, dest_ty, term, caller)
+
+        def mk_args5(h, adt=adt):
+            me = struct_of(F, adt, {"graph": Ref(Cell(Opaque("graph", {"graph"}), "graph")), "node_id": atom_int(64, "i")})
+            cell = Cell(me, "self")
+            return [Ref(cell)], {"self": cell}
+
+        def check5(h, out, cells, adt=adt):
+            fn_ = [f["name"] for f in F.adts[adt]["variants"][0]["fields"]]
+            i2 = cells["self"].v.fields[fn_.index("node_id")]
+            lt = h.truth("Lt", {"i": 1, "L": -1}, 0)
+            if lt is None:
+                return [("inc", "end test undecided")]
+            pr = []
+            if lt:
+                if not (isinstance(out, Adt) and out.variant == 1):
+                    pr.append("with node_id < len the iterator must yield")
+                else:
+                    v = out.fields[0]
+                    nid = v.fields[0] if isinstance(v, Adt) else None
+                    if not (isinstance(nid, Int) and aff_eq(nid, {"i": 1}, 0)):
+                        pr.append("the yielded node is %s instead of node i" % (affs(nid) if nid is not None else v))
+                if not aff_eq(i2, {"i": 1}, 1):
+                    pr.append("node_id advances to %s" % affs(i2))
+            else:
+                if not (isinstance(out, Adt) and out.variant == 0):
+                    pr.append("past the last node the iterator must end")
+            return pr
+        run_rows(F, rep, "C18.4", adt + "::next", body, mk_args5, check5, "%s::next visits node i for i = 0..len, one item per node" % adt.split("::")[-1], mk_h=H5)
+
+
+# =========================================================================== C15.1 view discipline / renderers, C15.2-3 hamming distance
+
+VIEW_GET = "<dna_string::DnaStringSlice<'a> as Mer>::get"
+
+
+class ViewOracles(Oracles):
+    """DnaStringSlice methods must read bases through the view (get / get_kmer), never the backing string directly"""
+
+    def __init__(self, script=()):
+        Oracles.__init__(self, script)
+        self.view_reads = []
+        self.direct_reads = []
+        self.rendered = []
+        self.pushed = []
+
+    def which(self, sl):
+        for t in ("self", "other"):
+            if isinstance(sl, Adt):
+                back = sl.fields[0]
+                v = back.cell.v if isinstance(back, Ref) else back
+                if isinstance(v, Opaque) and v.info.get("seq") == t:
+                    return t
+        return "?"
+
+    def on_call(self, it, fn, args, dest_ty, term, caller):
+        path = fn.get("path", "")
+        rpath = fn.get("rpath") or path
+        name = path.split("::")[-1]
+        if rpath == VIEW_GET or (fn.get("trait") == "Mer" and name == "get" and args and isinstance(recv(it, args[0]), Adt) and recv(it, args[0]).name == SLICE):
+            sl = recv(it, args[0])
+            p = args[1].val if isinstance(args[1], Int) and args[1].is_conc() else affs(args[1])
+            w = self.which(sl)
+            self.view_reads.append((w, p))
+            return Int(8, False, bits=[TOP] * 8, tags=frozenset({"view:%s:%s" % (w, p)}))
+        if fn.get("trait") in ("Mer", "Vmer") and args and isinstance(recv(it, args[0]), Opaque) and "seq" in recv(it, args[0]).info and name in ("get", "get_kmer"):
+            self.direct_reads.append((recv(it, args[0]).info["seq"], name, affs(args[1])))
+            return Int(8, False, bits=[TOP] * 8, tags=frozenset({"direct"}))
+        if path in ("bits_to_base", "bits_to_ascii"):
+            t = [x for x in tags_of(args[0]) if x.startswith("view:")]
+            self.rendered.append(t[0] if t else ("direct" if "direct" in tags_of(args[0]) else None))
+            it_ = 32 if path == "bits_to_base" else 8
+            return Int(it_, False, bits=[TOP] * it_, tags=frozenset({"rendered:%s" % (t[0] if t else "?")}), kind="char" if path == "bits_to_base" else "int")
+        if path == "dna_string::DnaString::push":
+            t = [x for x in tags_of(args[1]) if x.startswith("view:")]
+            self.pushed.append(t[0] if t else None)
+            return Tup([])
+        if path == "dna_string::DnaString::with_capacity" or path == "dna_string::DnaString::new":
+            return Opaque("DnaString", {"owned"})
+        return NotImplemented
+
+    def unknown_compare(self, it, op, a, b):
+        ta = [x for x in tags_of(a) if x.startswith("view:")]
+        tb = [x for x in tags_of(b) if x.startswith("view:")]
+        if ta and tb:
+            self.observe("base-compare", (ta[0], tb[0]))
+            pa = ta[0].split(":")[2]
+            eq = self.choose("equal@%s" % pa, (True, False))
+            return {"Eq": eq, "Ne": not eq}.get(op)
+        return None
+
+
+def mk_view(name, length, is_rc, start=2):
+    return Adt(SLICE, 0, [Ref(Cell(Opaque("DnaString", {"dnastring"}, {"seq": name, "len": "N"}), name)),
+                           Int(64, False, val=start), Int(64, False, val=length), mkbool(is_rc)])
+
+
+def slice_renderers(F, rep, rule="C15.1"):
+    L = 3
+    specs = [
+        ("dna_string::DnaStringSlice::<'a>::bytes", "bytes", "vec"),
+        ("dna_string::DnaStringSlice::<'a>::ascii", "ascii", "rendered-vec"),
+        ("dna_string::DnaStringSlice::<'a>::to_dna_string", "to_dna_string", "rendered-vec"),
+        ("dna_string::DnaStringSlice::<'a>::to_owned", "to_owned", "pushed"),
+        ("<dna_string::DnaStringSlice<'a> as std::fmt::Display>::fmt", "Display::fmt", "rendered"),
+        ("<dna_string::DnaStringSlice<'a> as std::fmt::Debug>::fmt", "Debug::fmt", "rendered"),
+    ]
+    want_view = ["view:self:%d" % p for p in range(L)]
+    for path, nm, how in specs:
+        body = anchor(F, rep, rule, "view/" + nm, path)
+        if body is None:
+            continue
+        problems = []
+        inc = []
+        for rc in (False, True):
+            h = ViewOracles()
+            it = Interp(F, False, h)
+            args = [Ref(Cell(mk_view("self", L, rc), "self"))]
+            if how == "rendered":
+                args.append(Ref(Cell(Opaque("Formatter", {"fmt"}), "f")))
+            rep.evaluations += 1
+            try:
+                out = it.call_body(body, args)
+            except (Undecided, Unsupported) as e:
+                inc.append("%s (is_rc=%s): %s" % (nm, rc, e))
+                continue
+            except Diverge as e:
+                problems.append("%s diverges: %s" % (nm, e))
+                continue
+            if h.direct_reads:
+                problems.append("%s reads the backing string directly (%s) — a reverse-complemented view (is_rc=%s) is rendered as the forward strand" % (
+                    nm, h.direct_reads[0], rc))
+                continue
+            if how == "vec":
+                got = [([x for x in tags_of(e) if x.startswith("view:")] or [None])[0] for e in out.elems] if isinstance(out, VecV) else None
+            elif how == "rendered-vec":
+                got = [([x[9:] for x in tags_of(e) if x.startswith("rendered:")] or [None])[0] for e in out.elems] if isinstance(out, VecV) else None
+            elif how == "pushed":
+                got = h.pushed
+            else:
+                got = h.rendered
+            if got != want_view:
+                problems.append("%s (is_rc=%s) produces %s; it must render positions 0..len of the view in order: %s" % (nm, rc, got, want_view))
+        if problems:
+            rep.violated(rule, "view/" + nm, problems[0], site=F.site(body, body["line"]), witness={"kind": "view-discipline", "count": len(problems)})
+        elif inc:
+            rep.inconclusive(rule, "view/" + nm, inc[0])
+        else:
+            rep.holds(rule, "view/" + nm, "%s reads every base through the view (so is_rc is honoured) and renders positions 0..len in order" % nm)
+    # ---- eq
+    body = anchor(F, rep, rule, "view/eq", "<dna_string::DnaStringSlice<'a> as std::cmp::PartialEq>::eq")
+    if body is not None:
+        problems = []
+        inc = []
+        rows = 0
+        for la, lb in ((L, L), (L, L + 1)):
+            def mk(script):
+                return ViewOracles(script)
+
+            def run(h, la=la, lb=lb):
+                it = Interp(F, False, h)
+                return it.call_body(body, [Ref(Cell(mk_view("self", la, False), "self")), Ref(Cell(mk_view("other", lb, True), "other"))])
+            for a, out, h in explore(mk, run):
+                rows += 1
+                rep.evaluations += 1
+                if isinstance(out, tuple) and out and out[0] == "inconclusive":
+                    inc.append(out[1])
+                    continue
+                if h.direct_reads:
+                    problems.append("eq reads the backing string directly: %s" % (h.direct_reads[0],))
+                    continue
+                val = bool(out.val) if isinstance(out, Int) and out.is_conc() else None
+                if la != lb:
+                    want = False
+                else:
+                    want = all(a.get("equal@%d" % p, True) for p in range(la))
+                if val != want:
+                    problems.append("eq returns %s for lengths (%d,%d) and per-position equality %s" % (val, la, lb, {k: v for k, v in a.items()}))
+                for (x, y) in h.obs.get("base-compare", []):
+                    px, py = x.split(":"), y.split(":")
+                    if px[2] != py[2] or {px[1], py[1]} != {"self", "other"}:
+                        problems.append("eq compares %s with %s; it must compare position i of self with position i of other" % (x, y))
+        if problems:
+            rep.violated(rule, "view/eq", problems[0], site=F.site(body, body["line"]), witness={"kind": "row", "count": len(problems)})
+        elif inc:
+            rep.inconclusive(rule, "view/eq", inc[0])
+        else:
+            rep.holds(rule, "view/eq", "slice equality ⇔ equal length and equal bases at every view position (%d rows)" % rows)
+
+
+class HammingOracles(ViewOracles):
+    """positions are normalised to the ORIGINAL view of each operand, so derived views (rc(), sub-slices, clones) are followed"""
+
+    def norm(self, sl, p, width):
+        """(which, first original-view position, orientation) of `width` bases at view position p of slice value sl"""
+        w = self.which(sl)
+        st, ln, rc = sl.fields[1], sl.fields[2], sl.fields[3]
+        if not (isinstance(st, Int) and st.is_conc() and isinstance(ln, Int) and ln.is_conc() and isinstance(rc, Int) and rc.is_conc() and isinstance(p, int)):
+            return (w, "?", "?")
+        st, ln, rc = st.val, ln.val, bool(rc.val)
+        lo = st + p if not rc else st + ln - width - p          # backing interval [lo, lo+width)
+        st0, ln0, rc0 = self.orig[w]
+        first = (lo - st0) if not rc0 else (st0 + ln0 - (lo + width))
+        return (w, first, "same" if rc == rc0 else "flipped")
+
+    def on_call(self, it, fn, args, dest_ty, term, caller):
+        path = fn.get("path", "")
+        rpath = fn.get("rpath") or path
+        name = path.split("::")[-1]
+        if name == "clone" and args and isinstance(recv(it, args[0]), Adt) and recv(it, args[0]).name == SLICE:
+            return recv(it, args[0])
+        if (rpath == VIEW_GET or (fn.get("trait") == "Mer" and name == "get")) and args and isinstance(recv(it, args[0]), Adt) and recv(it, args[0]).name == SLICE:
+            sl = recv(it, args[0])
+            p = args[1].val if isinstance(args[1], Int) and args[1].is_conc() else None
+            w, first, orient = self.norm(sl, p, 1)
+            self.view_reads.append((w, first))
+            return Int(8, False, bits=[TOP] * 8, tags=frozenset({"view:%s:%s" % (w, first), "orient:" + orient}))
+        if fn.get("trait") == "Vmer" and name == "get_kmer" and args and isinstance(recv(it, args[0]), Adt) and recv(it, args[0]).name == SLICE:
+            sl = recv(it, args[0])
+            p = args[1].val if isinstance(args[1], Int) and args[1].is_conc() else None
+            w, first, orient = self.norm(sl, p, 32)
+            self.observe("block", (w, first, orient))
+            return Opaque("K", {"kmer"}, {"block": (w, "%s/%s" % (first, orient))})
+        if fn.get("trait") == "Kmer" and name == "to_u64":
+            k = recv(it, args[0])
+            return Int(64, False, bits=[TOP] * 64, tags=frozenset({"block:%s:%s" % k.info.get("block", ("?", "?"))}))
+        if path == "dna_string::count_diff_2_bit_packed":
+            ta = [x for x in tags_of(args[0]) if x.startswith("block:")]
+            tb = [x for x in tags_of(args[1]) if x.startswith("block:")]
+            self.observe("block-compare", (ta[0] if ta else None, tb[0] if tb else None))
+            return Int(32, False, val=0)
+        return ViewOracles.on_call(self, it, fn, args, dest_ty, term, caller)
+
+
+def hamming_dist_table(F, rep, rule="C15.2"):
+    body = anchor(F, rep, rule, "hamming_dist", "dna_string::DnaStringSlice::<'a>::hamming_dist")
+    if body is None:
+        return
+    problems = []
+    inc = []
+    for L in (0, 1, 31, 32, 33, 63, 64, 65, 96, 100, 1024 + 5):
+        for rcs in ((False, False), (True, True), (False, True)):
+            h = HammingOracles()
+            h.script = []
+            h.orig = {"self": (2, L, rcs[0]), "other": (2, L, rcs[1])}
+            it = Interp(F, False, h)
+            rep.evaluations += 1
+            try:
+                it.call_body(body, [Ref(Cell(mk_view("self", L, rcs[0]), "self")), Ref(Cell(mk_view("other", L, rcs[1]), "other"))])
+            except (Undecided, Unsupported) as e:
+                inc.append("len %d: %s" % (L, e))
+                continue
+            except Diverge as e:
+                problems.append("hamming_dist diverges for two slices of length %d: %s" % (L, e))
+                continue
+            covered = {}
+            for (x, y) in h.obs.get("block-compare", []):
+                if x is None or y is None:
+                    problems.append("a block comparison uses operands that are not 32-base blocks of the slices")
+                    continue
+                wx, px = x.split(":")[1], x.split(":")[2]
+                wy, py = y.split(":")[1], y.split(":")[2]
+                if {wx, wy} != {"self", "other"}:
+                    problems.append("length %d: a block of `%s` is compared with a block of `%s` — the distance must compare self with other" % (L, wx, wy))
+                    continue
+                if px != py:
+                    problems.append("length %d (is_rc %s/%s): 32-base block %s of one operand is compared with block %s of the other (first original position / "
+                                    "orientation) — they do not hold the same positions in the same order" % (L, rcs[0], rcs[1], px, py))
+                    continue
+                px = px.split("/")[0]
+                if not px.lstrip("-").isdigit():
+                    inc.append("block position not determined")
+                    continue
+                for q in range(int(px), int(px) + 32):
+                    covered[q] = covered.get(q, 0) + 1
+            for (x, y) in h.obs.get("base-compare", []):
+                wx, px = x.split(":")[1], x.split(":")[2]
+                wy, py = y.split(":")[1], y.split(":")[2]
+                if {wx, wy} != {"self", "other"} or px != py:
+                    problems.append("length %d: base %s is compared with base %s" % (L, x, y))
+                    continue
+                covered[int(px)] = covered.get(int(px), 0) + 1
+            missing = [q for q in range(L) if covered.get(q, 0) == 0]
+            twice = [q for q in range(L) if covered.get(q, 0) > 1]
+            beyond = [q for q in covered if q >= L]
+            if missing:
+                problems.append("slices of length %d (is_rc %s/%s): positions %s%s are never compared — differences there are not counted" % (
+                    L, rcs[0], rcs[1], missing[:6], "…" if len(missing) > 6 else ""))
+            elif twice:
+                problems.append("slices of length %d (is_rc %s/%s): positions %s%s are compared more than once — differences there are counted twice" % (
+                    L, rcs[0], rcs[1], twice[:6], "…" if len(twice) > 6 else ""))
+            elif beyond:
+                problems.append("slices of length %d: positions %s beyond the end are compared" % (L, beyond[:4]))
+            if h.direct_reads:
+                problems.append("hamming_dist reads the backing string directly (%s): wrong for reverse-complemented or offset views" % (h.direct_reads[0],))
+    if problems:
+        rep.violated(rule, "hamming_dist", "DnaStringSlice::hamming_dist: %s" % problems[0], site=F.site(body, body["line"]),
+                     witness={"kind": "coverage", "count": len(problems)})
+    elif inc:
+        rep.inconclusive(rule, "hamming_dist", "hamming_dist: %s" % inc[0])
+    else:
+        rep.holds(rule, "hamming_dist", "DnaStringSlice::hamming_dist compares every position 0..len exactly once, always self against other at the same view "
+                  "position, through the views (lengths 0..1029 incl. block boundaries; forward, reverse-complemented and mixed operands)")
